@@ -114,6 +114,12 @@ inline const std::map<std::string, std::string> &poolTexts()
         {"imp_11", importing("v11.cellml")},
         {"imp_10err", importing("v10err.cellml")},
         {"imp_cycle", importing("cyc_a.cellml")},
+        // issues of all three levels from one parse: an empty import (warning), an unknown attribute (error), a 1.x-style
+        // construct is not needed - the import without children, with and without id, plus duplicated empty imports
+        {"imp_empty",
+         "<?xml version=\"1.0\" encoding=\"UTF-8\"?>\n<model xmlns=\"" NS20 "\" xmlns:xlink=\"http://www.w3.org/1999/xlink\" name=\"ie\">\n"
+         "  <import xlink:href=\"ok.cellml\"/>\n  <import xlink:href=\"ok.cellml\" id=\"i2\"/>\n"
+         "  <component name=\"c\" colour=\"red\"><variable name=\"a\" units=\"dimensionless\"/></component>\n  <import xlink:href=\"other.cellml\"></import>\n</model>\n"},
     };
     return texts;
 }
